@@ -168,6 +168,8 @@ func c01Regression() []regCase {
 		}
 	}
 	return []regCase{
+		{"300-classes-in-one-message", zoo.ManyClasses(300)},
+		{"17-classes-in-one-message", zoo.ManyClasses(17)},
 		{"multi-chunk-binary-after-3-classes", []interface{}{&zoo.K00{A: 1}, &zoo.K01{A: "x"}, &zoo.K02{A: 2}, make([]byte, 5000), make([]byte, 9000)}},
 		{"typed-slice-1500", zoo.SlI32{L: big}},
 		{"top-level-slice-1025", big[:1025]},
